@@ -4,14 +4,36 @@ import (
 	"encoding/json"
 	"flag"
 	"fmt"
+	"go/ast"
 	"go/types"
+	"math/rand"
 	"os"
 	"path/filepath"
 	"regexp"
 	"sort"
 	"strings"
 	"time"
+
+	"golang.org/x/tools/go/ssa"
 )
+
+// synthContract: the contract of the zero-annotation sweep (nopanic, nothing else).
+func synthContract(fn *ssa.Function, prop string) *FuncContract {
+	fc := &FuncContract{Key: fn.RelString(fn.Pkg.Pkg), NoPanic: true, AllocBound: true, Props: []string{prop}, Loops: map[int]*LoopSpec{},
+		Decl: &ast.FuncDecl{Name: ast.NewIdent(fn.Name()), Type: &ast.FuncType{Params: &ast.FieldList{}}}, Synth: true}
+	start := 0
+	if fn.Signature.Recv() != nil {
+		start = 1
+		fc.Decl.Recv = &ast.FieldList{List: []*ast.Field{{Names: []*ast.Ident{ast.NewIdent(fn.Params[0].Name())}}}}
+	}
+	for _, p := range fn.Params[start:] {
+		fc.ParamNames = append(fc.ParamNames, p.Name())
+	}
+	for i := 0; i < fn.Signature.Results().Len(); i++ {
+		fc.ResultNames = append(fc.ResultNames, "_")
+	}
+	return fc
+}
 
 type multiFlag []string
 
@@ -32,6 +54,7 @@ type RunReport struct {
 	Trusted     []string       `json:"trusted_contracts"`
 	WallS       float64        `json:"wall_s"`
 	SolverMs    int64          `json:"solver_ms"`
+	Swept       int            `json:"swept_functions"`
 }
 
 type OblReport struct {
@@ -52,6 +75,7 @@ type OblReport struct {
 	ReplayDir   string       `json:"replay_dir,omitempty"`
 	ReplayNotes []string     `json:"replay_notes,omitempty"`
 	Results     []ResultTerm `json:"result_terms,omitempty"`
+	Synth       bool         `json:"synth,omitempty"`
 }
 
 type ParamReport struct {
@@ -72,6 +96,9 @@ func main() {
 	all := flag.Bool("all-solvers", false, "run every solver on every obligation and require agreement")
 	jobs := flag.Int("j", 16, "parallel solver jobs")
 	dump := flag.Bool("dump", false, "print obligations")
+	sweep := flag.String("sweep", "", "regexp: functions without a contract that get a synthesized `nopanic` contract")
+	sweepN := flag.Int("sweep-n", 0, "sample size for -sweep (0 = all)")
+	seed := flag.Int64("seed", 0, "seed for sampling")
 	flag.Parse()
 	t0 := time.Now()
 	ov := map[string][]byte{}
@@ -102,7 +129,33 @@ func main() {
 		for _, sf := range p.files {
 			rep.Assumes = append(rep.Assumes, sf.Assumes...)
 		}
-		for _, fn := range p.sortedContracts() {
+		fns := p.sortedContracts()
+		if *sweep != "" {
+			// zero-annotation sweep: every matching function without a contract gets `nopanic` only
+			sre := regexp.MustCompile(*sweep)
+			var extra []*ssa.Function
+			for _, fn := range p.byKey {
+				if p.contracts[fn] != nil || len(fn.Blocks) == 0 || !sre.MatchString(qualName(fn)) {
+					continue
+				}
+				p.contracts[fn] = synthContract(fn, *prop)
+				extra = append(extra, fn)
+			}
+			sort.Slice(extra, func(i, j int) bool { return extra[i].String() < extra[j].String() })
+			if *sweepN > 0 && len(extra) > *sweepN {
+				// deterministic sample driven by the seed
+				rng := rand.New(rand.NewSource(*seed))
+				rng.Shuffle(len(extra), func(i, j int) { extra[i], extra[j] = extra[j], extra[i] })
+				for _, fn := range extra[*sweepN:] {
+					delete(p.contracts, fn)
+				}
+				extra = extra[:*sweepN]
+				sort.Slice(extra, func(i, j int) bool { return extra[i].String() < extra[j].String() })
+			}
+			rep.Swept = len(extra)
+			fns = p.sortedContracts()
+		}
+		for _, fn := range fns {
 			fc := p.contracts[fn]
 			if *prop != "" && !contains(fc.Props, *prop) {
 				continue
@@ -177,7 +230,7 @@ func main() {
 	}
 	results := Solve(obls, dir, *timeout, *all, *jobs)
 	for _, r := range results {
-		or := OblReport{Name: r.O.Name, Kind: r.O.Kind, Text: r.O.Text, Status: r.Status, Solver: r.Solver, Ms: r.Ms, Tried: r.Tried, Cover: r.O.IsCover, Fn: r.O.Fn}
+		or := OblReport{Name: r.O.Name, Kind: r.O.Kind, Text: r.O.Text, Status: r.Status, Solver: r.Solver, Ms: r.Ms, Tried: r.Tried, Cover: r.O.IsCover, Fn: r.O.Fn, Synth: r.O.Synth}
 		rep.SolverMs += r.Ms
 		bad := (!r.O.IsCover && r.Status != "unsat") || (r.O.IsCover && r.Status == "unsat") || r.Status == "error"
 		if bad {
